@@ -239,10 +239,10 @@ theorem calcWrapTimes_now (a : Asset) (startS nowMS tsbdS : Nat) (hnow : startS 
   ⟨rfl, sub_div_mul_add (nowMS - startS * 1000) a.loopMS (startS * 1000) nowMS rfl hnow⟩
 
 theorem calcWrapTimes_start (a : Asset) (startS nowMS tsbdS : Nat) :
-    ∃ xs, xs ≤ nowMS - startS * 1000 ∧
+    ∃ xs, xs ≤ nowMS - startS * 1000 ∧ nowMS ≤ xs + tsbdS * 1000 + startS * 1000 ∧
     (calcWrapTimes a startS nowMS tsbdS).startWraps = xs / a.loopMS ∧
     (calcWrapTimes a startS nowMS tsbdS).startRelMS = xs % a.loopMS :=
-  ⟨max (nowMS - tsbdS * 1000) (startS * 1000) - startS * 1000, by omega, rfl,
+  ⟨max (nowMS - tsbdS * 1000) (startS * 1000) - startS * 1000, by omega, by omega, rfl,
     sub_div_mul_add _ a.loopMS (startS * 1000) (max (nowMS - tsbdS * 1000) (startS * 1000)) rfl (Nat.le_max_right _ _)⟩
 
 /-- **What `generateTimelineEntries` lists last**: nothing when no segment has ended at the instant (less the offset),
@@ -263,7 +263,7 @@ theorem genTimeline_last (a : Asset) (r : Rep) (h : Contig r) (hc : Closes a r)
   have hD : 0 < r.dur := by rw [← hc.1]; omega
   have hD0 : ¬ r.dur = 0 := by omega
   obtain ⟨hnw, hnr⟩ := calcWrapTimes_now a startS nowMS tsbdS hnow
-  obtain ⟨xs, hxs, hsw, hsr⟩ := calcWrapTimes_start a startS nowMS tsbdS
+  obtain ⟨xs, hxs, _, hsw, hsr⟩ := calcWrapTimes_start a startS nowMS tsbdS
   unfold genTimeline
   simp only [hD0, ↓reduceIte, hnw, hnr, hsw, hsr]
   generalize hx : nowMS - startS * 1000 = x at *
@@ -332,5 +332,60 @@ theorem genTimeline_last (a : Asset) (r : Rep) (h : Contig r) (hc : Closes a r)
     · intro hnil; rw [hnil] at hlen; simp at hlen; omega
     · rw [Nat.mul_comm nw']; exact hE1
     · rw [Nat.mul_comm nw']; exact hE2
+
+
+/-- **What `generateTimelineEntries` lists first**: when anything is listed, the first number `s` is either 0 with
+segment 0 not yet ended at the start of the window, or the newest segment that has ended there:
+`E s ≤ τs < E (s+1)`, where `τs` is the window start (less the offset) in ticks, `xs` ms after the stream start with
+`now − tsbd ≤ start + xs`. -/
+theorem genTimeline_first (a : Asset) (r : Rep) (h : Contig r) (hc : Closes a r)
+    (hadm : a.loopMS * r.T = 1000 * r.dur) (hl : 0 < a.loopMS)
+    (startS nowMS tsbdS atoMS : Nat) (hnow : startS * 1000 ≤ nowMS)
+    (hne : (genTimeline r (calcWrapTimes a startS nowMS tsbdS) atoMS).entries ≠ []) :
+    ∃ (s xs : Nat), (genTimeline r (calcWrapTimes a startS nowMS tsbdS) atoMS).startNr = (s : Int) ∧
+      nowMS ≤ xs + tsbdS * 1000 + startS * 1000 ∧
+      (((xs + atoMS) * r.T / 1000 < E a r 0 ∧ s = 0) ∨
+       (E a r s ≤ (xs + atoMS) * r.T / 1000 ∧ (xs + atoMS) * r.T / 1000 < E a r (s + 1))) := by
+  have hb := contig_stop_le_dur a r h hc 0 h.1
+  have hD : 0 < r.dur := by rw [← hc.1]; omega
+  have hD0 : ¬ r.dur = 0 := by omega
+  obtain ⟨hnw, hnr⟩ := calcWrapTimes_now a startS nowMS tsbdS hnow
+  obtain ⟨xs, hxs, hxlo, hsw, hsr⟩ := calcWrapTimes_start a startS nowMS tsbdS
+  unfold genTimeline at hne ⊢
+  simp only [hD0, ↓reduceIte, hnw, hnr, hsw, hsr] at hne ⊢
+  generalize hx : nowMS - startS * 1000 = x at *
+  have hmods : (xs % a.loopMS + atoMS) * r.T / 1000 % r.dur < wrapDur a r := by rw [hc.1]; exact Nat.mod_lt _ hD
+  have eis := edge_instant' a r hadm hc xs atoMS hl hD
+  cases hen : edgeIdx r (x / a.loopMS + (x % a.loopMS + atoMS) * r.T / 1000 / r.dur) ((x % a.loopMS + atoMS) * r.T / 1000 % r.dur) with
+  | none => rw [hen] at hne; exact absurd rfl hne
+  | some p =>
+    obtain ⟨nw', ni⟩ := p
+    simp only []
+    cases hes : edgeIdx r (xs / a.loopMS + (xs % a.loopMS + atoMS) * r.T / 1000 / r.dur)
+        ((xs % a.loopMS + atoMS) * r.T / 1000 % r.dur) with
+    | none =>
+      refine ⟨0, xs, by simp, hxlo, Or.inl ⟨?_, rfl⟩⟩
+      unfold edgeIdx at hes
+      by_cases hf : finishedCount r.segs ((xs % a.loopMS + atoMS) * r.T / 1000 % r.dur) = 0
+      · rw [if_pos hf] at hes
+        by_cases hw : xs / a.loopMS + (xs % a.loopMS + atoMS) * r.T / 1000 / r.dur = 0
+        · have hnot := finishedCount_next_not_ended r.segs ((xs % a.loopMS + atoMS) * r.T / 1000 % r.dur)
+            (by rw [hf]; have := h.1; unfold Rep.N at this; exact this)
+          rw [hf] at hnot
+          rw [hw, Nat.zero_mul, Nat.zero_add] at eis
+          rw [← eis]
+          have e0 := E_decomp a r 0 0 h.1
+          simp only [Nat.mul_zero, Nat.zero_add, Nat.zero_mul] at e0
+          rw [e0]
+          exact hnot
+        · rw [if_neg hw] at hes; cases hes
+      · rw [if_neg hf] at hes; cases hes
+    | some q =>
+      obtain ⟨sw', si⟩ := q
+      have sps := edgeIdx_spec a r h hc _ _ sw' si hmods hes
+      rw [eis] at sps
+      refine ⟨sw' * r.N + si, xs, by simp, hxlo, Or.inr ⟨?_, ?_⟩⟩
+      · rw [Nat.mul_comm sw']; exact sps.2.1
+      · rw [Nat.mul_comm sw']; exact sps.2.2
 
 end Core
